@@ -55,7 +55,9 @@ pub fn read_varint<R: Read>(reader: &mut R) -> io::Result<(u64, usize)> {
         value += byte_buf[0] as u64;
     }
 
-    Ok((value, (no_bytes + 1) as usize))
+    // widen before adding: a garbage length byte of 255 (damaged or truncated file) made
+    // `no_bytes + 1` overflow u8
+    Ok((value, no_bytes as usize + 1))
 }
 
 /// Write a fixed 8-byte unsigned integer
